@@ -314,7 +314,8 @@ Definition write_cp (c : cfg) (o : oracle) (k : ctl) (h : hnd) (v : list N)
   : option (N * bool * ctl * hnd * list call) :=
   match v with
   | [] => Some (e_invalid_length, false, k, h, [])
-  | op :: _ =>
+  | op0 :: _ =>
+      let op := op0 mod 256 in                     (* opcode = *value; (std::uint8_t) *)
       let k := set_opcode k op in
       let a := asz c in
       if (op =? 0) || (op =? 2) || (op =? 4) then
@@ -394,7 +395,7 @@ Definition read_cp (c : cfg) (o : oracle) (k : ctl) (read_size : nat) : option (
     else if op =? 4 then Some ([op], [])
     else if op =? 5 then Some (op :: le32 (bcrc (getb k (nextb k))) ++ le16 (bcons (getb k (nextb k))), [])
     else if op =? 8 then Some (op :: le32 (csum k) ++ [errc k mod 256], [])
-    else Some (op mod 256 :: untouched (read_size - 1), []).     (* out_size is not set *)
+    else Some (op :: untouched (read_size - 1), []).     (* out_size is not set *)
 
 (* bootloader_read_data( read_size, ... ) *)
 Definition read_data (c : cfg) (o : oracle) (k : ctl) (h : hnd) (read_size : nat) : list N * ctl * hnd * list call :=
